@@ -116,12 +116,13 @@ Definition name_ok (name : text) : Prop := name <> [] /\ rstrip name = name.
 (* any fact list the server can emit, followed by any name, is parsed back exactly *)
 Lemma parse_mlsx_facts facts name :
   facts <> [] -> Forall (fun kv => clean (fst kv) /\ clean (snd kv)) facts -> name_ok name ->
-  parse_mlsx_line (flat_map fact_text facts ++ [SP] ++ name) = (name, entry_of facts).
+  parse_mlsx_line (flat_map fact_text facts ++ [SP] ++ name) = Ok (name, entry_of facts).
 Proof.
   intros Hne F [Nn Nr]. unfold parse_mlsx_line.
   rewrite (rstrip_app_nonempty _ ([SP] ++ name)).
   - change ([SP] ++ name) with (SP :: name).
     rewrite (partition_app SP _ name (flat_facts_avoid_space facts F)).
+    cbn [negb orb]. destruct name as [|c name']; [contradiction|].
     rewrite (split_facts facts Hne F). rewrite (fold_bodies facts [] F). reflexivity.
   - discriminate.
   - change ([SP] ++ name) with ([SP] ++ name). apply rstrip_app_nonempty; assumption.
@@ -157,10 +158,10 @@ Proof. vm_compute. repeat split; reflexivity. Qed.
 Theorem mlsx_roundtrip st kind name :
   name_ok name ->
   parse_mlsx_line (build_mlsx_string (Some st) kind name)
-  = (name, [ (l_size, str_of_Z (st_size st));
-             (l_create, format_mlsx_time (st_ctime st));
-             (l_modify, format_mlsx_time (st_mtime st));
-             (l_type, kind_text kind) ]).
+  = Ok (name, [ (l_size, str_of_Z (st_size st));
+                (l_create, format_mlsx_time (st_ctime st));
+                (l_modify, format_mlsx_time (st_mtime st));
+                (l_type, kind_text kind) ]).
 Proof.
   intro N. rewrite build_mlsx_string_eq.
   rewrite parse_mlsx_facts; [|discriminate|apply mlsx_facts_clean|exact N].
@@ -169,7 +170,7 @@ Qed.
 
 Theorem mlsx_roundtrip_missing kind name :
   name_ok name ->
-  parse_mlsx_line (build_mlsx_string None kind name) = (name, [ (l_type, kind_text kind) ]).
+  parse_mlsx_line (build_mlsx_string None kind name) = Ok (name, [ (l_type, kind_text kind) ]).
 Proof.
   intro N. rewrite build_mlsx_string_eq.
   rewrite parse_mlsx_facts; [|discriminate|apply mlsx_facts_clean|exact N].
@@ -221,20 +222,27 @@ Qed.
 Definition entry_name_ok (name : text) : Prop :=
   name_ok name /\ name <> DOT /\ name <> DOTDOT.
 
-(* every directory entry exactly once, in order, none invented, with its own facts *)
+(* the MLSD worker's lines, parsed one by one: every directory entry exactly once, in order, none
+   invented, each with its own facts *)
 Theorem mlsd_entries_exact dir :
   Forall (fun e => entry_name_ok (de_name e)) dir ->
-  client_mlsd (mlsd_lines dir)
-  = map (fun e => (de_name e, entry_of (mlsx_facts (de_stat e) (de_kind e)))) dir.
+  map parse_mlsx_line (mlsd_lines dir)
+  = map (fun e => Ok (de_name e, entry_of (mlsx_facts (de_stat e) (de_kind e)))) dir.
 Proof.
-  induction 1 as [|e rest [N [N1 N2]] _ IH]; [reflexivity|].
-  unfold client_mlsd, mlsd_lines in *. cbn [map].
+  induction 1 as [|e rest [N _] _ IH]; [reflexivity|].
+  unfold mlsd_lines in *. cbn [map]. rewrite IH. f_equal.
   rewrite build_mlsx_string_eq.
-  rewrite parse_mlsx_facts; [|unfold mlsx_facts; destruct (de_stat e); discriminate|apply mlsx_facts_clean|exact N].
-  cbn [filter fst].
-  destruct (text_eqb (de_name e) DOT) eqn:E1; [apply text_eqb_eq in E1; contradiction|].
-  destruct (text_eqb (de_name e) DOTDOT) eqn:E2; [apply text_eqb_eq in E2; contradiction|].
-  cbn [orb negb]. f_equal. exact IH.
+  apply parse_mlsx_facts; [unfold mlsx_facts; destruct (de_stat e); discriminate|apply mlsx_facts_clean|exact N].
+Qed.
+
+(* a line without SP, or with nothing after it, is a ValueError (not an entry called '.') *)
+Lemma mlsx_no_name_rejected s :
+  (forallb (fun x => negb (x =? SP)) (rstrip s) = true \/ exists f, rstrip s = f ++ [SP] /\ forallb (fun x => negb (x =? SP)) f = true) ->
+  parse_mlsx_line s = Err E_VALUE.
+Proof.
+  intros [H|[f [E H]]]; unfold parse_mlsx_line.
+  - rewrite (partition_none SP _ H). reflexivity.
+  - rewrite E. change (f ++ [SP]) with (f ++ SP :: []). rewrite (partition_app SP f [] H). reflexivity.
 Qed.
 
 (* ---------------- LIST ---------------- *)
@@ -437,6 +445,7 @@ Proof.
   rewrite (firstn_exact 12 ds _ Hlen), (strip_fixed_strip ds Hds), Hdate.
   rewrite (skipn_exact 12 ds _ Hlen).
   rewrite (strip_sp_cons name Hname).
+  destruct name as [|c0 name']; [destruct Hname as [Nn _]; contradiction|].
   unfold type_of_char. destruct Hty as [-> | ->]; reflexivity.
 Qed.
 
